@@ -338,7 +338,7 @@ def main():
       for vk in vks:
         items.append(dict(kind='index', mode='set', shape=shape, n=n, v=str(vk)))
   if tier == 'thorough':
-    for shape in ('idx', 'lohi', '_hi'):
+    for shape in ('idx', '_hi'):          # ('lohi' at 1023 forks once per slice width AND per bound pattern: > 25 min; covered at 255)
       items.append(dict(kind='index', mode='get', shape=shape, n=1023))
     items.append(dict(kind='index', mode='set', shape='idx', n=1023, v='int'))
     items.append(dict(kind='index', mode='set', shape='idx', n=1023, v='1'))
